@@ -21,12 +21,37 @@ RULE = ('transform_sequence: KData loaded from a real ISMRMRD file written per c
         'remove_readout_os, clone, and compress_coils / prewhiten_kspace as last step, plus invalid arguments; final id arrays of data, '
         'broadcast trajectory, scan_counter, the six labels, center_sample, limits and a deep snapshot of the source compared exactly with '
         'Model/KTransform.v under vm_compute. Non-trivial = at least one operation that moves samples; distinct by case hash.')
-TRUSTED_BASE = ['harness/ismrmrd_writer.py and C14 loading (the source object is snapshotted after loading and given to the model as is)',
+TRUSTED_BASE = ['translator harness/translate/ktransform.py (ast -> Gallina for crop window, select index, split / rearrange index maps; the rest pinned textually; fail-closed)',
+                'harness/ismrmrd_writer.py and C14 loading (the source object is snapshotted after loading and given to the model as is)',
                 'einops.rearrange/repeat, torch fancy indexing, Tensor.unfold (modelled as index maps, validated by correspondence)',
                 'torch.fft, torch.svd, cholesky/solve_triangular (implementation-level oracles only: remove_readout_os image claim, compress_coils projector)']
 ASSUMPTIONS = ['data are constant along k0 per (readout, coil) so that FFT-crop-FFT of remove_readout_os keeps ids up to the factor sqrt(N/M)',
                'remove_readout_os image-domain claim and compress_coils projection claim are checked on the implementation only (_partial)']
 PREAMBLE = 'From MrVerif Require Import Base.Prelude Base.Tensor Model.KTransform.'
+
+def translate(ctx):
+    """Regenerate Gen/ktransform_gen.v from KDataRemoveOsMixin / KDataSelectMixin / KDataSplitMixin / KDataRearrangeMixin and re-check
+    the obligations gen_* = Model/KTransform.v."""
+    from translate import ktransform as tk
+    out = vlib.COQ / 'Gen' / 'ktransform_gen.v'
+    out.parent.mkdir(exist_ok=True)
+    ok, why = tk.write(out)
+    ctx.extra.setdefault('coverage', {})['translator_available'] = ok
+    ctx.obligations += tk.N_OBLIGATIONS
+    if not ok:
+        ctx.notes.append(f'translator harness/translate/ktransform.py failed closed ({why})')
+        ctx.problem('proof', 'gen_ktransform', None,
+                    f'the KData re-organisation methods are outside the translated subset ({why}): the regenerated obligations '
+                    'gen_* = Model/KTransform.v cannot be stated')
+        return
+    rc, so, se = vlib.coqc_file(out)
+    if rc == 0:
+        ctx.discharged += tk.N_OBLIGATIONS
+    else:
+        ctx.problem('proof', 'gen_ktransform', None,
+                    'regenerated obligation gen_*_ok (remove_readout_os window / select index / split and rearrange index maps == '
+                    'Model/KTransform.v) no longer proves: ' + (se or so)[-700:])
+
 
 LABELS6 = ('average', 'slice', 'contrast', 'phase', 'repetition', 'set')
 _TMP = None
